@@ -1170,3 +1170,100 @@ Proof.
   { intros a b pa pb z Hab Na Nb. destruct a as [|[|a]], b as [|[|b]]; simpl in *; try discriminate; congruence. }
   symmetry. exact (proj2 (isolation_gen mv READY _ [p] s1 0 p t1 TD1 eq_refl N1) D1).
 Qed.
+
+(* ---- a thread program without ovni_proc_init/fini, alone in an initialised process ---- *)
+Definition is_proc_call (c : call) : bool := match c with ProcInit | ProcFini => true | _ => false end.
+Definition is_cas (a : action) : bool := match a with ACasInit | ACasFini => true | _ => false end.
+Definition nost (t : thr) : Prop :=
+  forallb (fun a => negb (is_cas a)) (t_cur t) = true /\ forallb (fun c => negb (is_proc_call c)) (t_todo t) = true.
+
+Lemma expand_nocas mv c : is_proc_call c = false -> forallb (fun a => negb (is_cas a)) (expand mv c) = true.
+Proof. destruct c, mv; simpl; intros H; try discriminate; reflexivity. Qed.
+
+Lemma nost_fetch mv t a rest cs : nost t -> fetch mv t = Some (a, rest, cs) ->
+  is_cas a = false /\ forallb (fun a => negb (is_cas a)) rest = true /\
+  forallb (fun c => negb (is_proc_call c)) cs = true.
+Proof.
+  intros (H1 & H2) F. destruct (fetch_inv _ _ _ _ _ F) as (_ & [(Hc & Ht) | (Hc & c0 & Ht & He)]).
+  - rewrite Hc in H1. simpl in H1. apply andb_true_iff in H1. destruct H1 as (A & B).
+    subst cs. repeat split; auto. destruct (is_cas a); auto; discriminate.
+  - rewrite Ht in H2. simpl in H2. apply andb_true_iff in H2. destruct H2 as (A & B).
+    assert (X : forallb (fun a => negb (is_cas a)) (a :: rest) = true).
+    { rewrite <- He. apply expand_nocas. destruct (is_proc_call c0); auto; discriminate. }
+    simpl in X. apply andb_true_iff in X. destruct X as (X1 & X2).
+    repeat split; auto. destruct (is_cas a); auto; discriminate.
+Qed.
+
+Lemma fav_ready a : is_cas a = false -> fav a = READY \/ a = ACasFini.
+Proof. destruct a; simpl; auto; discriminate. Qed.
+
+Lemma alone_step mv c t : c_st c = READY -> c_thr c = [t] -> nost t ->
+  match astep mv (t, pfile c t) with
+  | None => step mv c 0 = None
+  | Some (t', fl') => exists c', step mv c 0 = Some c' /\ c_st c' = READY /\ c_thr c' = [t'] /\
+                                pfile c' t' = fl' /\ nost t'
+  end.
+Proof.
+  intros St Th Ns. unfold astep, step. rewrite Th. simpl. unfold pfile. rewrite St.
+  destruct (fetch mv t) as [[[a rest] cs]|] eqn:F.
+  2:{ unfold tstep. rewrite F. reflexivity. }
+  destruct (nost_fetch _ _ _ _ _ Ns F) as (Na & Nr & Nc).
+  assert (Fa : fav a = READY). { destruct a; simpl in *; auto; discriminate. }
+  rewrite Fa.
+  destruct (tstep mv 0 t READY (fs_get (t_tid t) (c_fs c))) as [r|] eqn:T; [|reflexivity].
+  eexists. split; [reflexivity|]. simpl.
+  destruct (tstep_eff _ _ _ _ _ _ _ _ _ T F) as (_ & Hst & _).
+  destruct (tstep_ctl _ _ _ _ _ _ _ _ _ T F) as (Htodo & Hcur & _).
+  assert (Hf := tstep_fs _ _ _ _ _ _ _ _ _ T F).
+  split. { rewrite Hst. destruct a; simpl in *; auto; discriminate. }
+  split; [reflexivity|]. split.
+  - destruct a; try (destruct Hf as (Hf & Ht); rewrite Hf, Ht; reflexivity).
+    destruct Hf as (Hf & Ht). rewrite Hf. rewrite fs_get_put_eq.
+    destruct (fst (fs_exec o t (fs_get (t_tid t) (c_fs c)))) eqn:X; auto.
+    apply fs_exec_none in X. destruct X as (X1 & X2). rewrite Ht, X2. auto.
+  - split; [|rewrite Htodo; exact Nc]. destruct Hcur as [E|E]; rewrite E; auto.
+Qed.
+
+Lemma run_stuck mv c n : step mv c 0 = None -> run mv c (repeat 0%nat n) = c.
+Proof. intros H. induction n; simpl; auto. rewrite H. exact IHn. Qed.
+
+Lemma alone_run mv n : forall c t, c_st c = READY -> c_thr c = [t] -> nost t ->
+  exists t1, c_thr (run mv c (repeat 0%nat n)) = [t1] /\
+             (t1, pfile (run mv c (repeat 0%nat n)) t1) = arun mv n (t, pfile c t).
+Proof.
+  induction n; intros c t St Th Ns.
+  - exists t. simpl. auto.
+  - pose proof (alone_step mv c t St Th Ns) as A.
+    change (arun mv (S n) (t, pfile c t)) with
+      (match astep mv (t, pfile c t) with Some s' => arun mv n s' | None => (t, pfile c t) end).
+    change (repeat 0%nat (S n)) with (0%nat :: repeat 0%nat n).
+    destruct (astep mv (t, pfile c t)) as [[t' fl']|] eqn:E.
+    + destruct A as (c' & S1 & St' & Th' & Pf & Ns'). simpl run. rewrite S1. subst fl'. eapply IHn; eauto.
+    + simpl run. rewrite A. rewrite run_stuck by exact A. exists t. auto.
+Qed.
+
+(* C11_isolation_alone: the program alone in an initialised process, scheduled for as many steps as it
+   has actions, ends exactly with the sequential reference result (refusals included) *)
+Theorem alone_is_seq mv w p :
+  forallb (fun c => negb (is_proc_call c)) p = true ->
+  let c1 := run mv (ready_cfg w [p]) (repeat 0%nat (nactions mv p)) in
+  exists t1, c_thr c1 = [t1] /\ (t1, fs_get (t_tid t1) (c_fs c1)) = seq_result mv p.
+Proof.
+  intros Np c1. unfold c1, seq_result.
+  destruct (alone_run mv (nactions mv p) (ready_cfg w [p]) (thr0 p)) as (t1 & H1 & H2); auto.
+  - split; [reflexivity|exact Np].
+  - exists t1. split; auto.
+Qed.
+
+Theorem isolation_alone_full mv progs s i p t w :
+  tids_disjoint progs ->
+  let c := run mv (init progs) s in
+  nth_error progs i = Some p -> nth_error (c_thr c) i = Some t -> thr_done t = true ->
+  forallb (fun c => negb (is_proc_call c)) p = true ->
+  let c1 := run mv (ready_cfg w [p]) (repeat 0%nat (nactions mv p)) in
+  exists t1, c_thr c1 = [t1] /\ (t, fs_get (t_tid t) (c_fs c)) = (t1, fs_get (t_tid t1) (c_fs c1)).
+Proof.
+  intros TD c Np Nt Dn Nc c1.
+  destruct (alone_is_seq mv w p Nc) as (t1 & H1 & H2). exists t1. split; [exact H1|].
+  transitivity (seq_result mv p); [exact (isolation mv progs s i p t TD Np Nt Dn)|symmetry; exact H2].
+Qed.
